@@ -35,6 +35,7 @@ def run(repo: Repo, chk: Check) -> None:
     fidelity(repo, chk)
     constants(repo, chk)
     conversation(repo, chk)
+    shared_constants(repo, chk)
     # shared obligations that the statement names explicitly
     from . import codecs
     from .c11 import _reference as c11_reference
@@ -85,53 +86,45 @@ def twin_obligations(repo: Repo, chk: Check) -> None:
 
 
 def fidelity(repo: Repo, chk: Check) -> None:
+    from sa.pathsum import Summary
+
+    from .util import ev_args
+
     # ---- unprotect: arguments of the GetKey conversation
     for q, rpc in (("_client.ncrypt_unprotect_secret", "_sync_get_key"), ("_client.async_ncrypt_unprotect_secret", "_async_get_key")):
         f = repo.func(q)
-        rd = ReachingDefs(f)
-        calls = [n for n in body_nodes(f.node) if isinstance(n, ast.Call) and unparse(n.func) == rpc]
-        if len(calls) != 1:
+        summ = Summary(f)  # public API
+        blob = f"DPAPINGBlob.unpack({f.params[0]})"
+        want = {"target_sd": f"{blob}.protection_descriptor.get_target_sd()", "root_key_id": f"{blob}.key_identifier.root_key_identifier", "l0": f"{blob}.key_identifier.l0", "l1": f"{blob}.key_identifier.l1", "l2": f"{blob}.key_identifier.l2", "username": "username", "password": "password", "auth_protocol": "auth_protocol"}
+        n = 0
+        for ps in summ.returning():
+            for c in ps.calls(rpc):
+                n += 1
+                a = {k: ps.text(v) for k, v in ev_args(repo, f, c).items()}
+                bad = {k: a.get(k) for k, w in want.items() if a.get(k) != w}
+                chk.ob("O2", Site.of(f, c.node), not bad, "requests (SD of the blob's descriptor, root key id, L0, L1, L2) named by the blob, credentials and protocol passed through" if not bad else f"GetKey arguments differ from what the blob names: {bad}")
+                srv = a.get("server", "")
+                oksrv = srv == "server" or srv.endswith(f"({blob}.key_identifier.domain_name).target")
+                chk.ob("O2", Site.of(f, c.node, "GetKey server"), oksrv, "server = the caller's or the DC located for the blob's domain" if oksrv else f"server is {srv}")
+        if n == 0:
             raise AnalysisError(f"{q}: {rpc} call changed")
-        c = calls[0]
-        site = Site.of(f, c)
-        args = [unparse(a) for a in c.args]
-        want = ["server", "target_sd", "blob.key_identifier.root_key_identifier", "blob.key_identifier.l0", "blob.key_identifier.l1", "blob.key_identifier.l2"]
-        chk.ob("O2", site, args == want, "requests (SD, root key id, L0, L1, L2) named by the blob, in that order" if args == want else f"GetKey arguments are {args}, expected {want}")
-        kws = {k.arg: unparse(k.value) for k in c.keywords if k.arg}
-        wk = {"username": "username", "password": "password", "auth_protocol": "auth_protocol"}
-        chk.ob("O2", site, kws == wk, "credentials and protocol passed through" if kws == wk else f"keyword arguments {kws}")
-        # target_sd = blob.protection_descriptor.get_target_sd(); blob = DPAPINGBlob.unpack(data)
-        d = rd.single_def("target_sd", c)
-        oks = d is not None and d.value is not None and unparse(d.value) == "blob.protection_descriptor.get_target_sd()"
-        chk.ob("O2", site, oks, "SD derived from the blob's protection descriptor" if oks else f"target_sd is {unparse(d.value) if d is not None and d.value is not None else '?'}")
-        b = rd.single_def("blob", c)
-        okb = b is not None and b.value is not None and unparse(b.value) == f"DPAPINGBlob.unpack({f.params[0]})"
-        chk.ob("O2", site, okb, "blob = DPAPINGBlob.unpack(data)")
     # ---- protect: (-1, -1, -1) and the caller's root key id
     for q, rpc in (("_client.ncrypt_protect_secret", "_sync_get_key"), ("_client.async_ncrypt_protect_secret", "_async_get_key")):
         f = repo.func(q)
-        rd = ReachingDefs(f)
-        calls = [n for n in body_nodes(f.node) if isinstance(n, ast.Call) and unparse(n.func) == rpc]
-        if len(calls) != 1:
+        summ = Summary(f)
+        n = 0
+        for ps in summ.returning():
+            for c in ps.calls(rpc):
+                n += 1
+                av = ev_args(repo, f, c)
+                a = {k: ps.text(v) for k, v in av.items()}
+                vals = [repo.try_fold(av[k], f.mod)[1] if k in av and repo.try_fold(av[k], f.mod)[0] else None for k in ("l0", "l1", "l2")]
+                ok = a.get("root_key_id") == "root_key_identifier" and vals == [-1, -1, -1]
+                chk.ob("O2", Site.of(f, c.node), ok, "protect asks for the current key: (root key id, -1, -1, -1)" if ok else f"protect requests root key {a.get('root_key_id')} with index values {vals}, expected (root_key_identifier, -1, -1, -1)")
+                oks = a.get("target_sd") == f"ProtectionDescriptor.parse({f.params[1]}).get_target_sd()"
+                chk.ob("O2", Site.of(f, c.node, "protect SD"), oks, "SD derived from the given protection descriptor" if oks else f"target_sd is {a.get('target_sd')}")
+        if n == 0:
             raise AnalysisError(f"{q}: {rpc} call changed")
-        c = calls[0]
-        site = Site.of(f, c)
-        ok = len(c.args) == 6 and unparse(c.args[0]) == "server" and unparse(c.args[2]) == "root_key_identifier"
-        vals = []
-        for a in c.args[3:6]:
-            v: t.Any = None
-            if isinstance(a, ast.Name):
-                dd = rd.single_def(a.id, c)
-                if dd is not None and dd.value is not None:
-                    okf, v = repo.try_fold(dd.value, f.mod)
-            else:
-                okf, v = repo.try_fold(a, f.mod)
-            vals.append(v)
-        ok = ok and vals == [-1, -1, -1]
-        chk.ob("O2", site, ok, "protect asks for the current key: (root key id, -1, -1, -1)" if ok else f"protect requests {[unparse(a) for a in c.args]} with index values {vals}, expected (server, sd, root_key_identifier, -1, -1, -1)")
-        d = rd.single_def(unparse(c.args[1]), c) if isinstance(c.args[1], ast.Name) else None
-        oks = d is not None and d.value is not None and unparse(d.value).endswith(".get_target_sd()")
-        chk.ob("O2", site, oks, "SD derived from the given protection descriptor")
     # ---- GetKey construction inside the conversation: role-correct positions
     gk = repo.cls("_gkdi.GetKey")
     params = [p.name for p in gk.init_params()]
@@ -139,12 +132,6 @@ def fidelity(repo: Repo, chk: Check) -> None:
     chk.ob("O2", Site(gk.mod.rel, gk.qual, gk.node.lineno, "GetKey field order"), params == want_roles, f"GetKey({', '.join(params)})" if params == want_roles else f"GetKey init parameters are {params}")
     for q in ("_client._sync_get_key", "_client._async_get_key"):
         f = repo.func(q)
-        ctor = [n for n in body_nodes(f.node) if isinstance(n, ast.Call) and unparse(n.func) == "GetKey"]
-        if len(ctor) != 1:
-            raise AnalysisError(f"{q}: GetKey construction changed")
-        a = [unparse(x) for x in ctor[0].args] + [f"{k.arg}={unparse(k.value)}" for k in ctor[0].keywords]
-        ok = a == ["target_sd", "root_key_id", "l0", "l1", "l2"]
-        chk.ob("O2", Site.of(f, ctor[0]), ok, "GetKey(target_sd, root_key_id, l0, l1, l2)" if ok else f"GetKey built from {a}: an index transposition requests another key")
         pn = [p for p in f.params]
         okp = pn[:6] == ["server", "target_sd", "root_key_id", "l0", "l1", "l2"]
         chk.ob("O2", Site.of(f, construct=f"{f.name} parameter order"), okp, "parameters (server, target_sd, root_key_id, l0, l1, l2)" if okp else f"parameter order is {pn}")
@@ -210,41 +197,142 @@ def constants(repo: Repo, chk: Check) -> None:
 
 
 def conversation(repo: Repo, chk: Check) -> None:
-    for q in ("_client._sync_get_key", "_client._async_get_key"):
+    from sa.pathsum import Summary
+
+    from .recipe import S, run_recipe
+    from .util import ev_args
+
+    for q, conn in (("_client._sync_get_key", "create_rpc_connection"), ("_client._async_get_key", "async_create_rpc_connection")):
         f = repo.func(q)
         chk.analysed(f)
-        conns = sorted([n for n in body_nodes(f.node) if isinstance(n, ast.Call) and unparse(n.func) in ("create_rpc_connection", "async_create_rpc_connection")], key=lambda n: n.lineno)
-        if len(conns) != 2:
-            chk.ob("O3", Site.of(f, construct="two connections"), False, f"{len(conns)} RPC connections, expected endpoint mapper then ISD_KEY")
-            continue
-        a0 = [unparse(a) for a in conns[0].args] + [k.arg for k in conns[0].keywords]
-        ok0 = a0 == ["server"]
-        chk.ob("O3", Site.of(f, conns[0]), ok0, "endpoint mapper leg: default port, no authentication" if ok0 else f"first connection is created with {a0}")
-        a1 = [unparse(a) for a in conns[1].args]
-        k1 = {k.arg: unparse(k.value) for k in conns[1].keywords if k.arg}
-        ok1 = len(a1) == 2 and a1[0] == "server" and k1 == {"username": "username", "password": "password", "auth_protocol": "auth_protocol"}
-        chk.ob("O3", Site.of(f, conns[1]), ok1, "second leg: mapped port, caller's credentials and protocol" if ok1 else f"second connection is created with {a1} {k1}")
-        rd = ReachingDefs(f)
-        port = conns[1].args[1] if len(conns[1].args) > 1 else None
-        d = rd.single_def(unparse(port), conns[1]) if isinstance(port, ast.Name) else None
-        okp = d is not None and d.value is not None and unparse(d.value).startswith("_process_ept_map_result(")
-        chk.ob("O3", Site.of(f, conns[1]), okp, "port = _process_ept_map_result(reply of ept_map)" if okp else "the second connection does not use the port returned by the endpoint mapper")
-        reqs = sorted([n for n in body_nodes(f.node) if isinstance(n, ast.Call) and unparse(n.func).endswith(".request")], key=lambda n: n.lineno)
-        binds = sorted([n for n in body_nodes(f.node) if isinstance(n, ast.Call) and unparse(n.func).endswith(".bind")], key=lambda n: n.lineno)
-        okb = len(binds) == 2 and [unparse(k.value) for b in binds for k in b.keywords if k.arg == "contexts"] == ["_EPM_CONTEXTS", "_ISD_KEY_CONTEXTS"]
-        chk.ob("O3", Site.of(f, binds[0] if binds else None, None if binds else "bind calls"), okb, "binds EPM contexts first, ISD_KEY contexts second" if okb else "bind calls do not offer _EPM_CONTEXTS then _ISD_KEY_CONTEXTS")
-        if len(reqs) != 2:
-            chk.ob("O3", Site.of(f, construct="two requests"), False, f"{len(reqs)} requests")
-            continue
-        r0, r1 = reqs
-        a = [unparse(x) for x in r0.args]
-        em = rd.single_def("ept_map", r0)
-        ok = len(a) == 3 and a[1] == "ept_map.opnum" and a[2] == "ept_map.pack()" and em is not None and unparse(em.value) == "_EPT_MAP_ISD_KEY" and not r0.keywords
-        chk.ob("O3", Site.of(f, r0), ok, "ept_map request: opnum and stub of _EPT_MAP_ISD_KEY, no verification trailer" if ok else f"endpoint mapper request is {unparse(r0)[:120]}")
-        a = [unparse(x) for x in r1.args]
-        k = {kw.arg: unparse(kw.value) for kw in r1.keywords if kw.arg}
-        ok = len(a) == 3 and a[1] == "get_key.opnum" and a[2] == "get_key.pack()" and k == {"verification_trailer": "_VERIFICATION_TRAILER"}
-        chk.ob("O3", Site.of(f, r1), ok, "GetKey request: opnum and stub of the GetKey object, with the interface verification trailer" if ok else f"GetKey request is {unparse(r1)[:160]}: opnum/stub/verification trailer differ")
-        rets = [n for n in body_nodes(f.node) if isinstance(n, ast.Return)]
-        okr = len(rets) == 1 and unparse(rets[0].value) == "_process_get_key_result(resp)" and rd.single_def("resp", rets[0]) is not None and (call_of(rd.single_def("resp", rets[0]).value) or (None, None, None, None))[3] is r1  # type: ignore[union-attr]
-        chk.ob("O3", Site.of(f, rets[0] if rets else None, None if rets else "return"), bool(okr), "returns the envelope decoded from the GetKey reply" if okr else "the function does not return _process_get_key_result(<GetKey reply>)")
+        summ = Summary(f)
+        rets = summ.returning()
+        if not rets:
+            raise AnalysisError(f"{q}: no returning path")
+        for ps in rets:
+            names = run_recipe(repo, chk, "O3", f, ps, [
+                S("C1", conn, {"server": "server"}, nth=0, why="endpoint mapper leg"),
+                S("B1", "bind", {"contexts": "_EPM_CONTEXTS"}, recv="C1", why="binds the EPM contexts on the first connection"),
+                S("R1", "request", {"opnum": "_EPT_MAP_ISD_KEY.opnum", "stub_data": "_EPT_MAP_ISD_KEY.pack()"}, recv="C1", why="ept_map request: opnum and stub of _EPT_MAP_ISD_KEY"),
+                S("P", "_process_ept_map_result", {"response": "R1"}, why="port = _process_ept_map_result(reply of ept_map)"),
+                S("C2", conn, {"server": "server", "port": "P", "username": "username", "password": "password", "auth_protocol": "auth_protocol"}, nth=1, why="second leg: mapped port, caller's credentials and protocol"),
+                S("B2", "bind", {"contexts": "_ISD_KEY_CONTEXTS"}, recv="C2", why="binds the ISD_KEY contexts on the second connection"),
+                S("G", "GetKey", {"target_sd": "target_sd", "root_key_id": "root_key_id", "l0_key_id": "l0", "l1_key_id": "l1", "l2_key_id": "l2"}, why="an index transposition requests another key"),
+                S("R2", "request", {"opnum": "G.opnum", "stub_data": "G.pack()", "verification_trailer": "_VERIFICATION_TRAILER"}, recv="C2", why="GetKey request: opnum and stub of the GetKey object, with the interface verification trailer"),
+            ], f.name, ret="_process_get_key_result(R2)")
+            conns = ps.calls(conn)
+            if conns:
+                a0 = ev_args(repo, f, conns[0])
+                chk.ob("O3", Site.of(f, conns[0].node), set(a0) == {"server"}, "endpoint mapper leg: default port, no authentication" if set(a0) == {"server"} else f"first connection is created with {sorted(a0)}")
+            for nm, ctxs in (("R1", "_EPM_CONTEXTS"), ("R2", "_ISD_KEY_CONTEXTS")):
+                ev = [c for c in ps.calls("request") if nm in names and ps.key(c.tree) == ps.key(names[nm])]
+                if not ev:
+                    continue
+                a = ev_args(repo, f, ev[0])
+                okf, v = repo.try_fold(a["context_id"], f.mod) if "context_id" in a else (False, None)
+                okw, w = repo.try_fold(ast.parse(f"{ctxs}[0].context_id", mode="eval").body, f.mod)
+                chk.ob("O3", Site.of(f, ev[0].node, f"{nm} presentation context"), okf and okw and v == w, f"request on presentation context {w}" if okf and okw and v == w else f"request uses context id {ps.text(a.get('context_id'))}, the interface context of {ctxs} is {w}")
+                if nm == "R1":
+                    chk.ob("O3", Site.of(f, ev[0].node, "R1 verification trailer"), "verification_trailer" not in a or ps.text(a["verification_trailer"]) == "None", "no verification trailer on the unauthenticated leg")
+
+
+MUTATORS = {"append", "extend", "insert", "remove", "pop", "clear", "sort", "reverse", "update", "setdefault", "popitem", "add", "discard", "__setitem__", "__delitem__"}
+
+
+def shared_constants(repo: Repo, chk: Check, rule: str = "O3") -> None:
+    """The module-level lists/dicts that describe the conversation (_EPM_CONTEXTS, _ISD_KEY_CONTEXTS, registries ...) are
+    shared by every call in the process: no function may modify one in place, directly or through a parameter / local
+    alias that can be bound to it (who-may-write rule over the resolved call sites, to a fixpoint over parameter passing)."""
+    from sa.normalize import Normalizer, _params, stored_names
+
+    nz = Normalizer(repo, {})
+    consts: t.Dict[t.Tuple[str, str], ast.expr] = {}
+    for m in repo.modules.values():
+        for name, e in m.consts.items():
+            if isinstance(e, (ast.List, ast.Dict, ast.Set, ast.ListComp, ast.DictComp, ast.SetComp)):
+                consts[(m.name, name)] = e
+    tainted: t.Dict[t.Tuple[str, str], str] = {}  # (function, parameter) -> constant it can alias
+
+    def const_of(f: Func, e: ast.expr, locals_: t.Set[str]) -> t.Optional[str]:
+        if isinstance(e, ast.Name):
+            if (f.qual, e.id) in tainted:
+                return tainted[(f.qual, e.id)]
+            if e.id in locals_:
+                return None
+            r = repo.resolve_name(e.id, f.mod)
+            if isinstance(r, tuple) and r[0] == "const" and (r[1].name, e.id) in consts:
+                return f"{r[1].name}.{e.id}"
+            if isinstance(r, tuple) and r[0] == "const":
+                for (mn, cn), ce in consts.items():
+                    if ce is r[2]:
+                        return f"{mn}.{cn}"
+        return None
+
+    changed = True
+    rounds = 0
+    while changed and rounds < 6:
+        changed = False
+        rounds += 1
+        for f in repo.funcs.values():
+            locals_ = (stored_names(f.node) | {a.arg for a in _params(f.node)})
+            for n in body_nodes(f.node):
+                if not isinstance(n, ast.Call):
+                    continue
+                sig = nz._signature(f, n, locals_)
+                if sig is None or sig[0] not in repo.funcs:
+                    continue
+                callee = repo.funcs[sig[0]]
+                amap: t.Dict[str, ast.expr] = {}
+                for p_, a in zip(sig[1], n.args):
+                    amap[p_] = a
+                for kw in n.keywords:
+                    if kw.arg:
+                        amap[kw.arg] = kw.value
+                for p_, a in amap.items():
+                    c = const_of(f, a, locals_ - {x for x in locals_ if (f.qual, x) in tainted})
+                    if c is not None and (callee.qual, p_) not in tainted:
+                        tainted[(callee.qual, p_)] = c
+                        changed = True
+    chk.count("shared constant containers", len(consts))
+    checked = 0
+    for f in repo.funcs.values():
+        rd: t.Optional[ReachingDefs] = None
+        locals_ = stored_names(f.node) | {a.arg for a in _params(f.node)}
+
+        def alias_of(e: ast.expr, at: ast.AST) -> t.Optional[str]:
+            """The shared constant that `e` may be (a tainted parameter, the global itself, or a local bound to either)."""
+            nonlocal rd
+            if not isinstance(e, ast.Name):
+                return None
+            if e.id in locals_ and (f.qual, e.id) not in tainted:
+                if rd is None:
+                    rd = ReachingDefs(f)
+                for d in rd.reaching(e.id, at):
+                    if d.kind == "assign" and d.index is None and isinstance(d.value, ast.Name) and d.value.id != e.id:
+                        c = alias_of(d.value, d.stmt if d.stmt is not None else at)
+                        if c is not None:
+                            return c
+                return None
+            return const_of(f, e, locals_ - {x for x in locals_ if (f.qual, x) in tainted})
+
+        for n in body_nodes(f.node):
+            tgt: t.Optional[ast.expr] = None
+            how = ""
+            if isinstance(n, ast.Call) and isinstance(n.func, ast.Attribute) and n.func.attr in MUTATORS:
+                tgt, how = n.func.value, f".{n.func.attr}()"
+            elif isinstance(n, (ast.Assign, ast.AugAssign, ast.Delete)):
+                for x in (n.targets if isinstance(n, (ast.Assign, ast.Delete)) else [n.target]):
+                    if isinstance(x, ast.Subscript):
+                        tgt, how = x.value, " item assignment"
+                    elif isinstance(n, ast.AugAssign) and isinstance(x, ast.Name):
+                        tgt, how = x, " augmented assignment"
+            if tgt is None:
+                continue
+            c = alias_of(tgt, n)
+            if c is not None:
+                checked += 1
+                # registries are filled at import time by their decorator; nothing else may write
+                deco = f.name.startswith("register_") or any(f.qual.endswith(x) for x in (".wrap",))
+                ok = deco
+                chk.ob(rule, Site.of(f, n), ok, f"{c} is filled by its registration decorator at import time" if ok else f"{unparse(tgt)}{how} modifies the shared module constant {c} in place: the next call in this process sees a different conversation (bind contexts / registries are process-wide)")
+    chk.ob(rule, Site("src/dpapi_ng", "module constants", 0, "no run-time writer of shared constant containers"), True, f"{len(consts)} module-level containers, {len(tainted)} parameters that can alias one, {checked} write(s) inspected")
